@@ -27,11 +27,14 @@ open Juno.C06
 /-- For EVERY state and EVERY event (no hypothesis): a step that stores a block got that block from
 the source (`deliver`), `SanityCheckNewHeight` accepted it (`b.ok`), the stream had not been
 cancelled, its number is head+1 (0 on an empty chain) and its parent hash is the head's hash
-(`felt.Zero` on an empty chain), and afterwards it is the head. -/
+(`felt.Zero` on an empty chain), the state root it CLAIMS is the root of the state that results from
+applying its diff to the node's state (`stateRoot`: a function of the stored diffs, not of any
+header), and afterwards it is the head. -/
 theorem stored_verified_and_extends (cfg : Cfg) (s : Impl) (e : Ev) (n h : Nat)
     (hs : Obs.stored n h ∈ (s.step cfg e).2) :
     ∃ req b, e = .deliver req b false ∧ b.ok = true ∧ b.num = n ∧ b.hash = h ∧
       b.num = nextHeight s.node.chain ∧ b.parent = expParent s.node.chain ∧
+      b.root = rootStep (stateRoot s.node.chain) b.diff ∧
       (s.step cfg e).1.node.chain = b :: s.node.chain := by
   cases e with
   | deliver req b c =>
@@ -46,6 +49,7 @@ theorem stored_verified_and_extends (cfg : Cfg) (s : Impl) (e : Ev) (n h : Nat)
       | false =>
         cases hsucc : succession s.node.chain b with
         | badNumber => simp [Impl.step, ht, hok, hsucc] at hs
+        | rootMismatch => simp [Impl.step, ht, hok, hsucc] at hs
         | parentMismatch => simp [Impl.step, ht, hok, hsucc] at hs
         | stored =>
           obtain ⟨h1, h2⟩ := succession_stored hsucc
@@ -58,7 +62,7 @@ theorem stored_verified_and_extends (cfg : Cfg) (s : Impl) (e : Ev) (n h : Nat)
             · cases e; exact ⟨rfl, rfl⟩
             · cases hr : s.node.reorg <;> simp [reorgObs, hr] at e
             · cases e
-          exact ⟨req, b, rfl, hok, this.1, this.2, h1, h2, by simp [Impl.step, ht, hok, hsucc, onStored]⟩
+          exact ⟨req, b, rfl, hok, this.1, this.2, h1, h2, succession_stored_root hsucc, by simp [Impl.step, ht, hok, hsucc, onStored]⟩
   | reorgDetected next latest confirm =>
     rw [(step_reorgDetected cfg s next latest confirm).1] at hs; cases hs
   | iter ans revOk =>
@@ -102,7 +106,7 @@ theorem wrong_number_never_stored (cfg : Cfg) (s : Impl) (r : Nat) (b : Blk) (c 
 theorem genesis_must_be_block_zero (cfg : Cfg) (s : Impl) (e : Ev) (n h : Nat)
     (hempty : s.node.chain = []) (hs : Obs.stored n h ∈ (s.step cfg e).2) :
     n = 0 ∧ ∃ req b, e = .deliver req b false ∧ b.num = 0 ∧ b.parent = 0 ∧ b.ok = true := by
-  obtain ⟨req, b, he, hok, hnum, _, hnext, hpar, _⟩ := stored_verified_and_extends cfg s e n h hs
+  obtain ⟨req, b, he, hok, hnum, _, hnext, hpar, _, _⟩ := stored_verified_and_extends cfg s e n h hs
   rw [hempty] at hnext hpar
   exact ⟨by rw [← hnum]; exact hnext, req, b, he, hnext, hpar, hok⟩
 
@@ -129,6 +133,7 @@ theorem head_moves_back_only_by_revert (cfg : Cfg) (s : Impl) (e : Ev) :
       | false =>
         cases hsucc : succession s.node.chain b with
         | badNumber => left; simp [Impl.step, ht, hok, hsucc]
+        | rootMismatch => left; simp [Impl.step, ht, hok, hsucc]
         | parentMismatch => left; simp [Impl.step, ht, hok, hsucc]
         | stored => right; left; exact ⟨b, by simp [Impl.step, ht, hok, hsucc, onStored]⟩
   | reorgDetected next latest confirm =>
@@ -162,6 +167,111 @@ theorem head_moves_back_only_by_revert (cfg : Cfg) (s : Impl) (e : Ev) :
             · simp [Impl.step, ht, hch, hit, revertHead]
   | restart => left; cases ht : s.task <;> simp [Impl.step, ht]
 
+
+/-! ## the claimed state root is checked against the real state when a block is stored -/
+
+/-- A block whose claimed state root is NOT the root of the state its diff produces on the node's
+state changes nothing — however self-consistent it is (`ok`: hash recomputed over the forged header,
+matching state update), whatever its number and parent, for EVERY state. In the code the only thing
+standing between such a block and the database is the new-root verification inside `Store`
+(`state.Update`); `SanityCheckNewHeight` cannot see it. -/
+theorem wrong_state_root_never_stored (cfg : Cfg) (s : Impl) (r : Nat) (b : Blk) (c : Bool)
+    (hr : b.root ≠ rootStep (stateRoot s.node.chain) b.diff) :
+    (s.step cfg (.deliver r b c)).1.node = s.node ∧ (s.step cfg (.deliver r b c)).2 = [] := by
+  cases ht : s.task with
+  | some _ => simp [Impl.step, ht]
+  | none =>
+    by_cases hok : b.ok = true
+    case neg => simp [Impl.step, ht, hok]
+    case pos =>
+    cases c with
+    | true => simp [Impl.step, ht, hok]
+    | false =>
+      cases hsucc : succession s.node.chain b with
+      | stored => exact absurd hsucc (succession_wrong_root hr)
+      | badNumber => simp [Impl.step, ht, hok, hsucc]
+      | rootMismatch => simp [Impl.step, ht, hok, hsucc]
+      | parentMismatch => simp [Impl.step, ht, hok, hsucc]
+
+/-- INVARIANT of every step, for every event: if every block of the chain claims the root of the
+state its history produces (`RootsOK`), the same holds afterwards. -/
+theorem claimed_roots_stay_true (cfg : Cfg) (s : Impl) (e : Ev) (h : RootsOK s.node.chain) :
+    RootsOK (s.step cfg e).1.node.chain := by
+  rcases head_moves_back_only_by_revert cfg s e with hc | ⟨b, hc, hst⟩ | ⟨hd, lpv, hc, _, _⟩
+  · rw [hc]; exact h
+  · obtain ⟨_, b', _, _, _, _, _, _, hroot, hc'⟩ := stored_verified_and_extends cfg s e b.num b.hash hst
+    rw [hc'] at hc ⊢
+    exact ⟨hroot, h⟩
+  · rw [hc] at h; exact h.tail
+
+/-- … hence along EVERY run (any events, any answers, any cancellations, failed reverts, restarts)
+from a chain with true root claims — in particular from the empty database — the state root the
+stored head claims is the root of the state the node actually holds. -/
+theorem head_root_is_state_root (cfg : Cfg) (es : List Ev) (s : Impl) (h : RootsOK s.node.chain) :
+    RootsOK (Impl.run cfg s es).1.node.chain ∧
+    ∀ hd tl, (Impl.run cfg s es).1.node.chain = hd :: tl → hd.root = stateRoot (hd :: tl) := by
+  have key : ∀ (es : List Ev) (s : Impl), RootsOK s.node.chain → RootsOK (Impl.run cfg s es).1.node.chain := by
+    intro es
+    induction es with
+    | nil => intro s h; exact h
+    | cons e es ih =>
+      intro s h
+      rw [Impl.run_cons]
+      exact ih _ (claimed_roots_stay_true cfg s e h)
+  refine ⟨key es s h, ?_⟩
+  intro hd tl hc
+  have := key es s h
+  rw [hc] at this
+  exact this.head_root
+
+/-- The same for the ACCEPTOR the harness runs on observed traces: it only accepts `stored` for a
+served block whose claimed root is the root of the resulting state, so the chain it tracks keeps
+true root claims. -/
+theorem accepted_trace_keeps_claimed_roots_true (m : Mode) (s s' : Spec) (e : SEv)
+    (h : RootsOK s.chain) (hst : Spec.step m s e = .ok s') : RootsOK s'.chain := by
+  cases e with
+  | served req b => simp only [Spec.step] at hst; cases hst; exact h
+  | latest l => simp only [Spec.step] at hst; cases hst; exact h
+  | restart =>
+    simp only [Spec.step] at hst
+    split at hst
+    · cases hst; exact h
+    · cases hst
+  | obs o =>
+    cases o with
+    | stored n hh =>
+      obtain ⟨_, b, _, _, _, _, hsucc, hc, _⟩ := Spec.stored_inv hst
+      rw [hc]; exact h.cons_of_succession hsucc
+    | reverted n hh =>
+      obtain ⟨hd, tl, hc, _, _, _, hs'⟩ := Spec.reverted_inv hst
+      rw [hs']; rw [hc] at h; exact h.tail
+    | revertFailed n hh => simp only [Spec.step] at hst; cases hst; exact h
+    | newHead n hh =>
+      simp only [Spec.step] at hst
+      split at hst
+      · cases hst
+      · split at hst
+        · cases hst; exact h
+        · cases hst
+    | reorg r =>
+      simp only [Spec.step] at hst
+      split at hst
+      · cases hst
+      · split at hst
+        · cases hst; exact h
+        · cases hst
+
+-- non-vacuity: a self-consistent forged successor (right number and parent, `ok`, EMPTY diff, another
+-- root) is refused; the honest block is stored; forged and honest differ in nothing `ok` can see
+example :
+    let g : Blk := ⟨0, 1, 0, true, 5, rootStep 0 5⟩
+    let forged : Blk := ⟨1, 77, 1, true, 0, 4242⟩
+    let honest : Blk := ⟨1, 2, 1, true, 0, rootStep 0 5⟩
+    succession [g] forged = .rootMismatch ∧ succession [g] honest = .stored ∧
+    ((Impl.init [g]).step Cfg.asFound (.deliver 1 forged false)).2 = [] ∧
+    ((Impl.init [g]).step Cfg.asFound (.deliver 1 honest false)).2 = [Obs.stored 1 2, Obs.newHead 1 2] ∧
+    rejectOf (Spec.run .verified (Spec.init [g]) [.served 1 forged, .obs (.stored 1 77)]) = some .storedRootWrong := by
+  refine ⟨by decide, by decide, by decide, by decide, by decide⟩
 
 /-! ## what a revert may be decided on -/
 
@@ -216,10 +326,10 @@ def cfgBeforeReviewFixes : Cfg := ⟨true, true, true, false, false⟩
 without asking for any of them. Accepted by `fresh`, rejected by `verified`; the code in /repo asks
 for block 0 first, sees that it does not carry the announced hash, and reverts nothing. -/
 theorem lying_latest_header_reverts_live_blocks_before_158580c :
-    let g : Blk := ⟨0, 1, 0, true⟩
-    let x1 : Blk := ⟨1, 2, 1, true⟩
-    let x2 : Blk := ⟨2, 3, 2, true⟩
-    let x3 : Blk := ⟨3, 4, 3, true⟩
+    let g : Blk := ⟨0, 1, 0, true, 0, 0⟩
+    let x1 : Blk := ⟨1, 2, 1, true, 0, 0⟩
+    let x2 : Blk := ⟨2, 3, 2, true, 0, 0⟩
+    let x3 : Blk := ⟨3, 4, 3, true, 0, 0⟩
     let es : List Ev := [.reorgDetected 4 (some ⟨0, 999⟩) (some g), .iter none true, .iter none true,
       .iter none true, .iter (some g) true]
     EnvOK es ∧
@@ -238,9 +348,9 @@ with the genesis whose `Hash` field is altered — an answer `SanityCheckNewHeig
 was empty. Accepted by `fresh`, rejected by `verified`; with `verifyAns` alone the task breaks at
 block 0, and the code in /repo (with `confirmLatest` too) never starts it. -/
 theorem hash_altered_answer_reverts_live_block_before_40dc8b7 :
-    let g : Blk := ⟨0, 1, 0, true⟩
-    let x1 : Blk := ⟨1, 2, 1, true⟩
-    let bad : Blk := ⟨0, 555, 0, false⟩
+    let g : Blk := ⟨0, 1, 0, true, 0, 0⟩
+    let x1 : Blk := ⟨1, 2, 1, true, 0, 0⟩
+    let bad : Blk := ⟨0, 555, 0, false, 0, 0⟩
     let es : List Ev := [.reorgDetected 2 (some ⟨1, 999⟩) none, .iter none true, .iter (some bad) true]
     EnvOK es ∧
     (Impl.run cfgBeforeReviewFixes (Impl.init [x1, g]) es).2 = [Obs.reverted 1 2, Obs.reverted 0 1] ∧
@@ -273,9 +383,9 @@ theorem reachable_from_empty_linked (cfg : Cfg) (es : List Ev) (hok : (Impl.init
 /-- (fixed by 6c0318d) `revertTask` compared only hashes: an answer carrying another block number
 made it revert a block no answer contradicted. -/
 theorem wrong_number_answer_reverts_unjustified_before_6c0318d :
-    let g : Blk := ⟨0, 1, 0, true⟩
-    let x1 : Blk := ⟨1, 2, 1, true⟩
-    let x2 : Blk := ⟨2, 3, 2, true⟩
+    let g : Blk := ⟨0, 1, 0, true, 0, 0⟩
+    let x1 : Blk := ⟨1, 2, 1, true, 0, 0⟩
+    let x2 : Blk := ⟨2, 3, 2, true, 0, 0⟩
     let es : List Ev := [.reorgDetected 2 (some ⟨1, 99⟩) none, .iter none true, .iter (some x2) true]
     (Impl.run Cfg.original (Impl.init [x1, g]) es).2 = [Obs.reverted 1 2, Obs.reverted 0 1] ∧
     rejectOf (Spec.run .lenient (Spec.init [x1, g]) ((Impl.init [x1, g]).trace Cfg.original es)) =
@@ -286,9 +396,9 @@ theorem wrong_number_answer_reverts_unjustified_before_6c0318d :
 /-- (fixed by 508f9af) a successor block fetched before a reorg made `storeTask` revert the new
 head without asking. -/
 theorem stale_answer_reverts_live_block_before_508f9af :
-    let g : Blk := ⟨0, 1, 0, true⟩
-    let b1 : Blk := ⟨1, 20, 1, true⟩
-    let a2 : Blk := ⟨2, 11, 10, true⟩
+    let g : Blk := ⟨0, 1, 0, true, 0, 0⟩
+    let b1 : Blk := ⟨1, 20, 1, true, 0, 0⟩
+    let a2 : Blk := ⟨2, 11, 10, true, 0, 0⟩
     let es : List Ev := [.deliver 2 a2 false, .iter (some b1) true]
     (Impl.run Cfg.original (Impl.init [b1, g]) es).2 = [Obs.reverted 1 20] ∧
     rejectOf (Spec.run .lenient (Spec.init [b1, g]) ((Impl.init [b1, g]).trace Cfg.original es)) = none ∧
@@ -302,9 +412,9 @@ source `[g']`, node `[g, x1]`: `isReverting` returns `remoteHeight - 1 = 2^64-1`
 for block 1, the source has none, the loop breaks; every round leaves the node unchanged, for ever.
 The guard repairs it. -/
 theorem no_convergence_remote_height_zero_before_4de714c :
-    let g : Blk := ⟨0, 1, 0, true⟩
-    let x1 : Blk := ⟨1, 2, 1, true⟩
-    let g' : Blk := ⟨0, 50, 0, true⟩
+    let g : Blk := ⟨0, 1, 0, true, 0, 0⟩
+    let x1 : Blk := ⟨1, 2, 1, true, 0, 0⟩
+    let g' : Blk := ⟨0, 50, 0, true, 0, 0⟩
     (∀ k, (runRounds Cfg.original [g'] k ⟨[x1, g], none⟩).1.chain = [x1, g]) ∧
     (runRounds Cfg.asFound [g'] 4 ⟨[x1, g], none⟩).1.chain = [g'] := by
   refine ⟨?_, by decide⟩
@@ -312,12 +422,12 @@ theorem no_convergence_remote_height_zero_before_4de714c :
   induction k with
   | zero => rfl
   | succ k ih =>
-    have hr : round Cfg.original [⟨0, 50, 0, true⟩] ⟨[⟨1, 2, 1, true⟩, ⟨0, 1, 0, true⟩], none⟩ =
-        (⟨[⟨1, 2, 1, true⟩, ⟨0, 1, 0, true⟩], none⟩, []) := by decide
-    have hstep : (runRounds Cfg.original [⟨0, 50, 0, true⟩] (k + 1)
-          ⟨[⟨1, 2, 1, true⟩, ⟨0, 1, 0, true⟩], none⟩).1 =
-        (runRounds Cfg.original [⟨0, 50, 0, true⟩] k
-          (round Cfg.original [⟨0, 50, 0, true⟩] ⟨[⟨1, 2, 1, true⟩, ⟨0, 1, 0, true⟩], none⟩).1).1 := rfl
+    have hr : round Cfg.original [⟨0, 50, 0, true, 0, 0⟩] ⟨[⟨1, 2, 1, true, 0, 0⟩, ⟨0, 1, 0, true, 0, 0⟩], none⟩ =
+        (⟨[⟨1, 2, 1, true, 0, 0⟩, ⟨0, 1, 0, true, 0, 0⟩], none⟩, []) := by decide
+    have hstep : (runRounds Cfg.original [⟨0, 50, 0, true, 0, 0⟩] (k + 1)
+          ⟨[⟨1, 2, 1, true, 0, 0⟩, ⟨0, 1, 0, true, 0, 0⟩], none⟩).1 =
+        (runRounds Cfg.original [⟨0, 50, 0, true, 0, 0⟩] k
+          (round Cfg.original [⟨0, 50, 0, true, 0, 0⟩] ⟨[⟨1, 2, 1, true, 0, 0⟩, ⟨0, 1, 0, true, 0, 0⟩], none⟩).1).1 := rfl
     rw [hstep, hr]; exact ih
 
 /-! ## notifications are exact -/
@@ -346,11 +456,11 @@ theorem accepted_notifications_exact (m : Mode) (s s' : Spec) (tr : List SEv)
 notification then covers a block that was not reverted (witness; this is why `EnvOK` asks for
 `revOk`; reproduced on the real code by injected database failures and replayed exactly). -/
 theorem failed_revert_makes_reorg_range_wrong :
-    let g : Blk := ⟨0, 1, 0, true⟩
-    let x1 : Blk := ⟨1, 2, 1, true⟩
-    let z2 : Blk := ⟨2, 40, 99, true⟩
-    let y2 : Blk := ⟨2, 30, 2, true⟩
-    let es : List Ev := [.deliver 2 z2 false, .iter (some ⟨1, 55, 1, true⟩) false, .deliver 2 y2 false]
+    let g : Blk := ⟨0, 1, 0, true, 0, 0⟩
+    let x1 : Blk := ⟨1, 2, 1, true, 0, 0⟩
+    let z2 : Blk := ⟨2, 40, 99, true, 0, 0⟩
+    let y2 : Blk := ⟨2, 30, 2, true, 0, 0⟩
+    let es : List Ev := [.deliver 2 z2 false, .iter (some ⟨1, 55, 1, true, 0, 0⟩) false, .deliver 2 y2 false]
     (Impl.run Cfg.asFound (Impl.init [x1, g]) es).2 =
       [Obs.revertFailed 1 2, Obs.stored 2 30, Obs.reorg ⟨1, 2, 1, 2⟩, Obs.newHead 2 30] := by
   decide
@@ -487,10 +597,10 @@ theorem feed_len_ids_lose_a_subscriber :
 
 -- a catch-up + reorg run that satisfies every hypothesis of `run_accepted_asFound`
 example :
-    let g : Blk := ⟨0, 1, 0, true⟩
-    let x1 : Blk := ⟨1, 2, 1, true⟩
-    let y1 : Blk := ⟨1, 12, 1, true⟩
-    let y2 : Blk := ⟨2, 13, 12, true⟩
+    let g : Blk := ⟨0, 1, 0, true, 0, 0⟩
+    let x1 : Blk := ⟨1, 2, 1, true, 0, 0⟩
+    let y1 : Blk := ⟨1, 12, 1, true, 0, 0⟩
+    let y2 : Blk := ⟨2, 13, 12, true, 0, 0⟩
     let es : List Ev := [.deliver 0 g false, .deliver 1 x1 false, .deliver 2 y2 false,
       .iter (some y1) true, .iter (some g) true, .deliver 1 y1 false, .deliver 2 y2 false]
     Linked ([] : Chain) ∧ EnvOK es ∧
@@ -502,9 +612,9 @@ example :
 
 -- evidence that satisfies the hypotheses of the two "absent from the answering chain" theorems
 example :
-    let g : Blk := ⟨0, 1, 0, true⟩
-    let x1 : Blk := ⟨1, 2, 1, true⟩
-    let y1 : Blk := ⟨1, 12, 1, true⟩
+    let g : Blk := ⟨0, 1, 0, true, 0, 0⟩
+    let x1 : Blk := ⟨1, 2, 1, true, 0, 0⟩
+    let y1 : Blk := ⟨1, 12, 1, true, 0, 0⟩
     justified .verified ⟨[(1, y1)], [], [(1, y1)], []⟩ [x1, g] x1 = true ∧
     justified .fresh ⟨[(1, y1)], [], [(1, y1)], []⟩ [x1, g] x1 = true ∧
     justified .fresh ⟨[], [⟨0, 999⟩], [], [⟨0, 999⟩]⟩ [x1, g] x1 = true ∧
@@ -512,26 +622,26 @@ example :
 
 -- a `Setting`, and a fair run with ENOUGH cycles (k = 5 = |src| + |node| + 1) and junk in between
 example :
-    Setting [⟨1, 2, 1, true⟩, ⟨1, 12, 1, true⟩, ⟨0, 1, 0, true⟩] [⟨1, 12, 1, true⟩, ⟨0, 1, 0, true⟩] ∧
-    ∃ es, FairRun Cfg.asFound [⟨1, 12, 1, true⟩, ⟨0, 1, 0, true⟩]
-      (Impl.init [⟨1, 2, 1, true⟩, ⟨0, 1, 0, true⟩]) 5 es := by
-  refine ⟨⟨?_, ⟨rfl, rfl, rfl, rfl⟩, by decide, by decide, by decide, by decide⟩, ?_⟩
+    Setting [⟨1, 2, 1, true, 0, 0⟩, ⟨1, 12, 1, true, 0, 0⟩, ⟨0, 1, 0, true, 0, 0⟩] [⟨1, 12, 1, true, 0, 0⟩, ⟨0, 1, 0, true, 0, 0⟩] ∧
+    ∃ es, FairRun Cfg.asFound [⟨1, 12, 1, true, 0, 0⟩, ⟨0, 1, 0, true, 0, 0⟩]
+      (Impl.init [⟨1, 2, 1, true, 0, 0⟩, ⟨0, 1, 0, true, 0, 0⟩]) 5 es := by
+  refine ⟨⟨?_, ⟨rfl, rfl, rfl, rfl⟩, by decide, by decide, ⟨rfl, rfl, trivial⟩, by decide, by decide⟩, ?_⟩
   · intro x hx y hy h
     simp only [List.mem_cons, List.mem_nil_iff, or_false] at hx hy
     rcases hx with rfl | rfl | rfl <;> rcases hy with rfl | rfl | rfl <;> first | rfl | (simp at h)
   · -- junk, then five rounds (every state without a task admits a round)
     have rounds : ∀ (k : Nat) (s : Impl), s.task = none →
-        ∃ es, FairRun Cfg.asFound [⟨1, 12, 1, true⟩, ⟨0, 1, 0, true⟩] s k es := by
+        ∃ es, FairRun Cfg.asFound [⟨1, 12, 1, true, 0, 0⟩, ⟨0, 1, 0, true, 0, 0⟩] s k es := by
       intro k
       induction k with
       | zero => intro s _; exact ⟨[], FairRun.done s⟩
       | succ k ih =>
         intro s ht
-        obtain ⟨_, _, ht'⟩ := roundEvents_spec Cfg.asFound [⟨1, 12, 1, true⟩, ⟨0, 1, 0, true⟩] s ht
+        obtain ⟨_, _, ht'⟩ := roundEvents_spec Cfg.asFound [⟨1, 12, 1, true, 0, 0⟩, ⟨0, 1, 0, true, 0, 0⟩] s ht
         obtain ⟨es, hes⟩ := ih _ ht'
         exact ⟨_, FairRun.round s es k ht hes⟩
     obtain ⟨es, hes⟩ := rounds 5
-      ((Impl.init [⟨1, 2, 1, true⟩, ⟨0, 1, 0, true⟩]).step Cfg.asFound (.deliver 7 ⟨0, 1, 0, false⟩ true)).1 rfl
-    exact ⟨_, FairRun.noop _ (.deliver 7 ⟨0, 1, 0, false⟩ true) es 5 rfl (Or.inl rfl) hes⟩
+      ((Impl.init [⟨1, 2, 1, true, 0, 0⟩, ⟨0, 1, 0, true, 0, 0⟩]).step Cfg.asFound (.deliver 7 ⟨0, 1, 0, false, 0, 0⟩ true)).1 rfl
+    exact ⟨_, FairRun.noop _ (.deliver 7 ⟨0, 1, 0, false, 0, 0⟩ true) es 5 rfl (Or.inl rfl) hes⟩
 
 end Juno.C06.Props
